@@ -133,3 +133,19 @@ def separation(polys):
                     continue        # the point lies on that edge (a crossing or a shared vertex)
                 best = min(best, math.sqrt(float(d2)))
     return best
+
+
+def crosses(va, vb):
+    """exact: some edge of polygon va properly crosses some edge of polygon vb"""
+    def edges(vs):
+        return [((F(vs[i][0]), F(vs[i][1])), (F(vs[(i + 1) % len(vs)][0]), F(vs[(i + 1) % len(vs)][1]))) for i in range(len(vs))]
+    for a0, a1 in edges(va):
+        for b0, b1 in edges(vb):
+            v0 = (a1[0] - a0[0], a1[1] - a0[1]); v1 = (b1[0] - b0[0], b1[1] - b0[1]); d = (b0[0] - a0[0], b0[1] - a0[1])
+            den = v0[0] * v1[1] - v0[1] * v1[0]
+            if den == 0:
+                continue
+            u = (d[0] * v1[1] - d[1] * v1[0]) / den; v = (d[0] * v0[1] - d[1] * v0[0]) / den
+            if 0 < u < 1 and 0 < v < 1:
+                return True
+    return False
